@@ -7,6 +7,7 @@ import (
 	"errors"
 	"fmt"
 	"io"
+	"math"
 	"runtime"
 	"time"
 
@@ -24,7 +25,7 @@ type c08Msg struct {
 	Size       int   `json:"size"`
 	Compressed bool  `json:"compressed"`
 	Frags      int   `json:"fragments"`
-	BFinal     bool  `json:"bfinal,omitempty"` // compressed stream ends with a BFINAL=1 block (RFC 7692 7.2.3.4)
+	BFinal     bool  `json:"bfinal,omitempty"`       // compressed stream ends with a BFINAL=1 block (RFC 7692 7.2.3.4)
 	Unterm     bool  `json:"unterminated,omitempty"` // the DEFLATE stream stops right behind the data of a non-final stored block (no empty block, no final block)
 	// LateLimit: the limit is set while the reader is already parked waiting for this message
 	LateLimit bool `json:"limit_set_while_reader_waits,omitempty"`
@@ -65,7 +66,7 @@ func init() {
 	})
 }
 
-var c08Limits = []int64{0, 1, 125, 126, 1000, 4096, -2, 65535, 65536, 100000, -1}
+var c08Limits = []int64{0, 1, 125, 126, 1000, 4096, -2, 65535, 65536, 100000, -1, math.MaxInt64, math.MaxInt64 - 1, 1 << 40}
 
 func c08Gen(tier string, seed int64) []fw.Case {
 	rng := fw.NewRand(uint64(seed)*7368787 + 8)
@@ -85,7 +86,10 @@ func c08Gen(tier string, seed int64) []fw.Case {
 						L = 32768
 					}
 					var sizes []int
-					if L >= 0 {
+					if L > 1<<32 {
+						// "as large as possible": everything that is sent is within the limit
+						sizes = []int{0, 1, 32768, 32769, 100000}
+					} else if L >= 0 {
 						for _, s := range []int64{L - 1, L, L + 1, 2 * L, 10*L + 7} {
 							if s >= 0 {
 								sizes = append(sizes, int(s))
@@ -112,7 +116,9 @@ func c08Gen(tier string, seed int64) []fw.Case {
 								pL = 32768
 							}
 							sz := 0
-							if pL > 0 {
+							if pL > 1<<32 {
+								sz = rng.Intn(70000)
+							} else if pL > 0 {
 								sz = rng.Intn(int(min(pL, 70000)) + 1)
 							} else if pL < 0 {
 								sz = rng.Intn(70000)
@@ -296,6 +302,8 @@ func limClass(l int64) string {
 		return "125-126"
 	case l <= 4096:
 		return "1000-4096"
+	case l > 1<<32:
+		return "huge"
 	default:
 		return ">=65535"
 	}
